@@ -16,6 +16,8 @@ kind 0: any one-shot serializer (+ converter) as a black box.  `res` / `dgram` i
    [8, n, token, rw, rt]  the peer sends a LARGE datagram of n bytes (UDPNetworkClient over AF_INET6: up to 65527); rw/rt =
         fresh-protocol result for the whole datagram / for its first MAX_DATAGRAM_BUFSIZE bytes (model: rw iff n <= recv size)
    [9, pkt]  send_packet(pkt) where serializing pkt raises (RuntimeError, nothing sent, nothing remembered)
+   [11]  next() on the client's ONE iter_received_packets(timeout=0) iterator (UDP clients): iteration goes on after a
+         parse error; an OSError (nothing queued, socket error) only ends that call (StopIteration -> [3])
 case input = [kind, cfg, ops, impl, endpoint code, bufopt]; bufopt = [n]: SocketDatagramTransport(max_datagram_size=n).
 
 kind 3: StringLineSerializer one-shot codec, white box (coq/Frame/LineOneShot.v): all three newlines, keep_end, ascii /
@@ -56,6 +58,11 @@ ANCHORS = [
     ("src/easynetwork/serializers/struct.py", "NamedTupleStructSerializer.from_tuple"),
     ("src/easynetwork/serializers/struct.py", "NamedTupleStructSerializer.iter_values"),
     ("src/easynetwork/serializers/pickle.py", "PickleSerializer.deserialize"),
+    ("src/easynetwork/serializers/pickle.py", "PickleSerializer.serialize"),
+    ("src/easynetwork/clients/_iter.py", "ClientRecvIterator"),
+    ("src/easynetwork/clients/_iter.py", "AsyncClientRecvIterator"),
+    ("src/easynetwork/clients/abc.py", "AbstractNetworkClient.iter_received_packets"),
+    ("src/easynetwork/clients/abc.py", "AbstractAsyncNetworkClient.iter_received_packets"),
     ("src/easynetwork/serializers/base_stream.py", "FileBasedPacketSerializer.serialize"),
     ("src/easynetwork/serializers/base_stream.py", "FileBasedPacketSerializer.deserialize"),
     ("src/easynetwork/lowlevel/constants.py", "MAX_DATAGRAM_BUFSIZE"),
@@ -104,7 +111,10 @@ RULE = ("a case = up to 6 datagrams sent by the peer (valid serializations of ge
         "over {a, NUL}, every field over {a, b, NUL}, wrong sizes); every valid datagram carries the packet it serializes and "
         "the model answers THAT packet (round trip through every shipped codec, incl. empty payloads under base64 with and "
         "without checksum, zlib, bz2); the JSON decoder-limit inputs (20000 '[' / 20000 digits) with debug off/on, bare and "
-        "under zlib / base64; a RuntimeError of the receive path is never accepted. Non-trivial = a malformed datagram is followed by a valid one, two items are queued before a receive, a "
+        "under zlib / base64; a RuntimeError of the receive path is never accepted; the UDP clients' iter_received_packets() "
+        "iterator (one per case, next() interleaved with recv_packet(), iteration continued after parse errors); "
+        "structure-aware malformed pickles (one opcode replaced, crafted well-formed programs building impossible "
+        "structures); serializers configured with an incremental `limit` smaller than the packets. Non-trivial = a malformed datagram is followed by a valid one, two items are queued before a receive, a "
         "cancelled receive with data available, a socket error behind an unread datagram, or confusable / mutated sends.")
 TRUSTED = ["models coq/IO/DgramEndpoint.v and coq/Frame/OneShot.v hand-written from protocol.py, serializers/abc.py and the "
            "datagram endpoints; validated by execution",
@@ -213,11 +223,13 @@ def make_protocol(kind, cfg, impl):
         return DatagramProtocol(_record_serializer())
     if name == b"line":
         from easynetwork.serializers.line import StringLineSerializer
-        return DatagramProtocol(StringLineSerializer(impl[2].decode(), encoding=impl[3].decode()))
+        kw = dict(limit=impl[4]) if len(impl) > 4 else {}
+        return DatagramProtocol(StringLineSerializer(impl[2].decode(), encoding=impl[3].decode(), **kw))
     if name in (b"json", b"jsonl", b"json+conv"):
         from easynetwork.serializers.json import JSONSerializer
         debug = bool(len(impl) > 2 and impl[2])
-        return DatagramProtocol(JSONSerializer(use_lines=(name == b"jsonl"), debug=debug),
+        kw = dict(limit=impl[3]) if len(impl) > 3 else {}
+        return DatagramProtocol(JSONSerializer(use_lines=(name == b"jsonl"), debug=debug, **kw),
                                 _point_converter() if name == b"json+conv" else None)
     if name in (b"b64-line", b"zlib-line", b"bz2-line"):
         from easynetwork.serializers.line import StringLineSerializer
@@ -238,12 +250,14 @@ def make_protocol(kind, cfg, impl):
         from easynetwork.serializers.pickle import PickleSerializer
         from easynetwork.serializers.wrapper.base64 import Base64EncoderSerializer
         inner = JSONSerializer() if name == b"b64-json" else PickleSerializer()
-        return DatagramProtocol(Base64EncoderSerializer(inner, checksum=bool(impl[2])))
+        kw = dict(limit=impl[3]) if len(impl) > 3 else {}
+        return DatagramProtocol(Base64EncoderSerializer(inner, checksum=bool(impl[2]), **kw))
     if name in (b"zlib-json", b"bz2-json"):
         from easynetwork.serializers.json import JSONSerializer
         from easynetwork.serializers.wrapper.compressor import BZ2CompressorSerializer, ZlibCompressorSerializer
         cls = ZlibCompressorSerializer if name == b"zlib-json" else BZ2CompressorSerializer
-        return DatagramProtocol(cls(JSONSerializer()))
+        kw = dict(limit=impl[2]) if len(impl) > 2 else {}
+        return DatagramProtocol(cls(JSONSerializer(**kw)))
     raise ValueError(f"unknown serializer {impl!r}")
 
 
@@ -370,6 +384,8 @@ def _result(fn, kind):
         return [0, canon(fn(), kind)]
     except DatagramProtocolParseError as exc:
         return classify(exc)
+    except StopIteration:
+        return [3]
     except TimeoutError:
         return [3]
     except OSError as exc:
@@ -447,8 +463,15 @@ def _run_sync(kind, cfg, ops, impl, bufopt=()):
     peer.setblocking(False)
     out = []
     holder = _Holder()
+    iterator = None
     try:
         for op in ops:
+            if op[0] == 11:
+                if iterator is None:
+                    iterator = ep.iter_received_packets(timeout=0)
+                r = _result(lambda: next(iterator), kind)
+                out.append([[3] if r[0] == 6 else r])
+                continue
             if op[0] == 0:
                 peer.send(op[1])
                 out.append([])
@@ -601,9 +624,27 @@ def _run_async(kind, cfg, ops, impl):
             except RuntimeError:
                 return [2]
 
+        aiterator = None
+
+        async def iter_next():
+            nonlocal aiterator
+            from easynetwork.exceptions import DatagramProtocolParseError
+            if aiterator is None:
+                aiterator = ep.iter_received_packets(timeout=0)
+            try:
+                return [0, canon(await anext(aiterator), kind)]
+            except StopAsyncIteration:
+                return [3]
+            except DatagramProtocolParseError as exc:
+                return classify(exc)
+            except RuntimeError:
+                return [2]
+
         try:
             for op in ops:
-                if op[0] == 0:
+                if op[0] == 11:
+                    out.append([await iter_next()])
+                elif op[0] == 0:
                     peer_send(op[1])
                     for _ in range(settle):
                         await asyncio.sleep(0)
@@ -730,6 +771,8 @@ def run_impl(inp):
 # ------------------------------------------------------------------------------------------------ case generation
 def _json_value(rng, depth=0):
     r = rng.random()
+    if depth == 0 and r < 0.15:
+        return {"text": "x" * rng.randint(60, 200), "n": [rng.randint(0, 9) for _ in range(rng.randint(20, 60))]}
     if depth > 1 or r < 0.35:
         return rng.choice([0, 1, -7, 12345678901, True, None, "", "a", "héllo\n", "x" * rng.randint(1, 12), 1.5])
     if r < 0.7:
@@ -743,7 +786,7 @@ def _packet(rng, impl):
         return "" if rng.random() < 0.4 else "".join(rng.choice("ab =\x00") for _ in range(rng.randint(0, 5)))
     if name == b"line":
         alphabet = "ab z\t" + ("é€" if impl[3] == b"utf-8" else "")
-        return "".join(rng.choice(alphabet) for _ in range(rng.randint(0, 8)))
+        return "".join(rng.choice(alphabet) for _ in range(rng.randint(0, 30 if len(impl) > 4 else 8)))
     if name in (b"json", b"jsonl", b"b64-json", b"zlib-json", b"bz2-json"):
         return _json_value(rng)
     if name == b"json+conv":
@@ -762,6 +805,8 @@ SERIALIZERS = (
     [b"struct", b"!hI?"], [b"pickle"], [b"b64-json", 0], [b"b64-json", 1], [b"b64-pickle", 1],
     [b"zlib-json"], [b"bz2-json"], [b"filebased"], [b"json", 1], [b"jsonl", 1],
     [b"b64-line", 0], [b"b64-line", 1], [b"zlib-line"], [b"bz2-line"],
+    # the incremental `limit` smaller than the packets: the one-shot path must not apply it
+    [b"json", 0, 48], [b"jsonl", 1, 48], [b"line", b"LF", b"ascii", 8], [b"b64-json", 1, 24], [b"zlib-json", 16], [b"bz2-json", 16],
 )
 
 # packets whose serialization raises, per serializer (the failure may come after a partial write: filebased)
@@ -770,6 +815,22 @@ UNSERIALIZABLE = {
     b"bz2-json": [{1, 2}], b"json+conv": [("x",)], b"struct": [(1,), (1, 2, True, 4)], b"line": [5, "\udc80"],
     b"filebased": [["a", 5], ["ab", "x", None, "y"], [7]],
 }
+
+
+PICKLE_OPS = b"}])(.NRK\x85\x86\x8f\x90\x94e"
+CRAFTED_PICKLES = (b"N)R.", b"\x80\x04\x8f(]\x90.", b"\x80\x04}(]N.", b"\x80\x04]N\x85R.", b"(NNd.", b"\x80\x04K\x01K\x02s.", b"N}b.")
+
+
+def _malform_pickle(rng, valid):
+    """structure-aware corruptions of a pickle: one opcode replaced by another, or a small crafted program that is
+    well-formed opcode-wise but builds an impossible structure (unhashable set member, calling None, ...)"""
+    if rng.random() < 0.4:
+        return [rng.choice(CRAFTED_PICKLES)], "structure-aware-pickle"
+    idx = [i for i, b in enumerate(valid) if b in PICKLE_OPS and i > 1]
+    if not idx:
+        return [rng.choice(CRAFTED_PICKLES)], "structure-aware-pickle"
+    i = rng.choice(idx)
+    return [valid[:i] + bytes([rng.choice(PICKLE_OPS)]) + valid[i + 1:]], "structure-aware-pickle"
 
 
 def _malform(rng, valid, other):
@@ -799,6 +860,7 @@ def _schedule(rng, dgrams, sends, endpoint=b"sync-endpoint"):
     sometimes one on an empty queue; on async endpoints some are cancelled one loop iteration after they started) and
     sends; returns (ops, feature tags)"""
     is_async = endpoint in (b"async-endpoint", b"async-udp-client")
+    use_iter = endpoint in (b"udp-client", b"async-udp-client") and rng.random() < 0.5
     ops, queued, todo = [], 0, list(dgrams)
     sends = list(sends)
     feats = set()
@@ -826,7 +888,9 @@ def _schedule(rng, dgrams, sends, endpoint=b"sync-endpoint"):
                 if queued:
                     queued -= 1
             else:
-                ops.append([3])
+                ops.append([11] if use_iter and rng.random() < 0.7 else [3])
+                if ops[-1] == [11]:
+                    feats.add("client-iterator")
                 queued -= 1
             if not queued:
                 last_item_unread_dgram = False
@@ -850,7 +914,9 @@ def _mk_case(kind, cfg, ops, impl, tags, feats, bufopt=()):
     feats = set(feats)
     if bad_then_good:
         feats.add("bad-then-good")
-    interesting = {"burst", "bad-then-good", "partial-separator", "codec-padding-byte-inside-payload", "decoder-limit-input", "send-after-failed-send", "large-datagram", "small-recv-size", "recv-cancelled-with-data", "sock-error-after-unread-datagram",
+    if "client-iterator" in feats and any(op[0] == 0 and not op[3] for op in ops):
+        feats = set(feats) | {"iterator-continues-after-parse-error"}
+    interesting = {"burst", "bad-then-good", "iterator-continues-after-parse-error", "structure-aware-pickle", "limit-smaller-than-packet", "partial-separator", "codec-padding-byte-inside-payload", "decoder-limit-input", "send-after-failed-send", "large-datagram", "small-recv-size", "recv-cancelled-with-data", "sock-error-after-unread-datagram",
                    "send-confusable", "send-mutated"}
     return dict(input=[kind, cfg, clean, impl, endpoint_code(impl), list(bufopt)],
                 tags=tags + sorted(feats) + [f"datagrams{len(arr)}"], nontrivial=bool(feats & interesting))
@@ -912,9 +978,14 @@ def _blackbox_case(rng, impl_ser, endpoint):
             pkt_of[valid] = canon(pkt)
         else:
             other = isolated_make(0, [], impl, canon(_packet(rng, impl)))
-            ds, tag = _malform(rng, valid, other)
+            if impl[1] == b"pickle" and rng.random() < 0.6:
+                ds, tag = _malform_pickle(rng, valid)
+            else:
+                ds, tag = _malform(rng, valid, other)
             ok = False
         tags.add(tag)
+        if len(impl) > 2 and isinstance(impl[-1], int) and impl[-1] > 1 and tag == "valid" and len(valid) > impl[-1]:
+            tags.add("limit-smaller-than-packet")
         for d in ds:
             res = isolated_build(0, [], impl, d)
             dgrams.append([0, d, res, ok, [pkt_of[d]]] if d in pkt_of else [0, d, res, False])
@@ -1249,6 +1320,13 @@ def oracle(inp):
                 return f"roundtrip: the datagram of send_packet({op[1]!r}) deserializes to {back!r}"
         else:
             r = res[0]
+            if op[0] == 11:
+                if queue and queue[0] == "ERR" and r == [3]:
+                    queue.pop(0)        # the socket error ended this call of the iterator
+                    continue
+                if queue and r == [3]:
+                    return (f"iterator-ended: {len(queue)} datagram(s) are waiting but next(iter_received_packets()) "
+                            f"stopped (an earlier parse error must not end the iteration)")
             if op[0] == 6 and r == [5]:
                 continue            # cancelled: nothing may have been consumed (checked by the following receives)
             if not queue:
